@@ -124,6 +124,8 @@ def r2(run, ctx):
     f = ctx.fn(W + 'send_signal')
     cfg = ctx.cfg(f)
     sends = ctx.nodes_calling(f, [P + 'send_signal'])
+    from sa.dataflow import reaching_defs
+    rd = reaching_defs(ctx, f)
 
     def member(e):
         if isinstance(e, ast.Compare) and isinstance(e.ops[0], (ast.In, ast.NotIn)) and \
@@ -136,20 +138,23 @@ def r2(run, ctx):
                       "watcher's table", f, s.ast, 'Watcher.send_signal signals without checking '
                       'that the pid is one of its workers')
             for c in s.calls():
-                if astq.call_last(c) == 'send_signal' and isinstance(c.func.value, ast.Name):
-                    src = [a for a in walk_local(f.node) if isinstance(a, ast.Assign) and any(
-                        isinstance(t, ast.Name) and t.id == c.func.value.id for t in a.targets)]
-                    run.check('R2', len(src) == 1 and norm_text(src[0].value) == 'self.processes[pid]',
+                if astq.call_last(c) == 'send_signal' and isinstance(c.func, ast.Attribute):
+                    recv = {a.text() for a in rd.expand(s, c.func.value)}
+                    run.check('R2', recv == {'self.processes[pid]'},
                               'the receiver is the table entry for that pid', f, s.ast)
-    for key in (W + 'send_signal_child', W + 'send_signal_children'):
+    for key, meth in ((W + 'send_signal_child', P + 'send_signal_child'),
+                      (W + 'send_signal_children', P + 'send_signal_children')):
         g = ctx.fn(key)
-        src = [a for a in walk_local(g.node) if isinstance(a, ast.Assign) and any(
-            isinstance(t, ast.Name) and t.id == 'process' for t in a.targets)]
-        run.check('R2', len(src) == 1 and norm_text(src[0].value) in
-                  ('self.processes[pid]', 'self.processes[int(pid)]'),
-                  '%s resolves the pid through its own table' % g.qualname, g,
-                  src[0] if src else g.node, '%s signals children of a process that is not taken '
-                  'from its own table' % g.qualname)
+        rdg = reaching_defs(ctx, g)
+        sites = [s for s in ctx.sites_calling(g, [meth])]
+        ok = bool(sites)
+        for s in sites:
+            recv = {a.text() for a in rdg.expand(s.node, s.call.func.value)} \
+                if isinstance(s.call.func, ast.Attribute) else set()
+            ok = ok and bool(recv) and recv <= {'self.processes[pid]', 'self.processes[int(pid)]'}
+        run.check('R2', ok, '%s resolves the pid through its own table' % g.qualname, g,
+                  sites[0].node.ast if sites else g.node, '%s signals children of a process that '
+                  'is not taken from its own table' % g.qualname)
     # commands: only watcher methods, watcher from the request's name
     for key, allowed in (('circus.commands.kill:Kill.execute', {W + 'kill_process',
                                                                 W + 'get_active_processes'}),
@@ -380,10 +385,26 @@ def r4(run, ctx):
                   'the lookup failure (%s) is caught and turned into the ValueError refusal' % need,
                   ts, x, 'an unknown name raises %s past the handler (%s): the refusal is not the '
                   'ValueError callers catch' % (need, hs), construct='to_signum lookup handler')
-    # numeric strings / ints first
-    t = norm_text(ts.node)
-    run.check('R4', 'val = int(signum)' in t, 'numbers and numeric strings are taken as they are',
-              ts, ts.node)
-    run.check('R4', "name = m.group(1).upper()" in t and "if not name.startswith('SIG'): name = 'SIG' + name" in t,
+    # numeric strings / ints first; names upper-cased, SIG prefix optional: read off the
+    # values that reach the return statements / the lookup
+    from sa.dataflow import reaching_defs
+    rd = reaching_defs(ctx, ts)
+    cfg = ctx.cfg(ts)
+    rets = [n for n in ctx.live_nodes(ts) if n.kind == 'stmt' and isinstance(n.ast, ast.Return)
+            and n.ast.value is not None]
+    plain = [(r, a) for r in rets for a in rd.expand(r, r.ast.value) if a.text() == 'int(signum)']
+    matches = [n for n, fn, pat in pats]
+    run.check('R4', bool(plain) and all(
+        cfg.dominates([(a.used[0] if a.used else r)], m) for r, a in plain for m in matches),
+        'numbers and numeric strings are taken as they are', ts, ts.node)
+    keys = set()
+    for kind, x in look:
+        node = [n for n in cfg.nodes if n.ast is not None and any(sub is x for sub in n.walk())]
+        key = x.slice if isinstance(x, ast.Subscript) else (x.args[1] if len(x.args) > 1 else None)
+        if node and key is not None:
+            mvar = None
+            for a in rd.expand(node[0], key, stop=('m',)):
+                keys.add(a.text())
+    run.check('R4', keys == {'m.group(1).upper()', "'SIG' + m.group(1).upper()"},
               'names are upper-cased and the SIG prefix is optional', ts, ts.node,
               'designations are not case-insensitive / the SIG prefix is mandatory')
